@@ -139,3 +139,67 @@ def rule_node_locks(ctx, rid, reason):
                               detail="node %r; locks held here: %s (own scoped locks + parameters every caller passes locked: %s). %s"
                               % (node, sorted(repr(x) for x in ls)[:4], [F.params[i]["n"] for i in sorted(L[F.m])], reason), sig="node-lock:%s" % kind)
     return total
+
+
+def rule_version_validation(ctx, rid, reason):
+    """optimistic hand-over: a function that was given (pNode, nVersion) - the version under which the caller's search reached pNode - and
+    that locks pNode re-validates 'pNode->version() == nVersion' under that lock before it writes pNode (child link, value) or unlinks it.
+    The version changes when the node is unlinked *and* when a rotation shrinks its key range; a weaker test (is_unlinked) misses the latter."""
+    from sa.q import norm_cond
+    total = 0
+    for F in ctx.db.funcs.values():
+        if not BR.match(F.q) or F.kind in ("ctor", "dtor"):
+            continue
+        vp = [pr for pr in F.params if pr["n"] == "nVersion"]
+        np_ = [pr for pr in F.params if pr["n"] == "pNode"]
+        if not vp or not np_:
+            continue
+        pnode = ("p", np_[0]["d"], "pNode")
+        pver = ("p", vp[0]["d"], "nVersion")
+        try:
+            ps = PathSim(F, bound=6000).run()
+        except PathBoundExceeded:
+            continue
+        seen = set()
+        for p in ps:
+            ev = p.events
+            idx = dict((id(e), i) for i, e in enumerate(ev))
+            lock_at = None
+            for i, e in enumerate(ev):
+                if e.kind == "var" and e.extra and re.search(r"monitor_scoped_lock$|::scoped_lock$", str(e.extra[1] or "")):
+                    args = e.val[2] if isinstance(e.val, tuple) and len(e.val) > 2 and isinstance(e.val[2], tuple) else ()
+                    if len(args) >= 2 and _norm(_node_of(args[1])) == pnode:
+                        lock_at = i
+                        break
+            if lock_at is None:
+                continue
+            vcalls = set(_norm(e.val) for e in ev if e.kind == "call" and e.q and re.search(r"link_node::version$", e.q) and len(e.args) == 1
+                         and _norm(e.obj) == pnode)
+            valid_at = None
+            for i, e in enumerate(ev):
+                if i > lock_at and e.kind == "branch" and isinstance(e.extra, tuple) and e.extra[0] != "switch":
+                    atom, pol = norm_cond(e.val)
+                    atom = _norm(atom)
+                    if isinstance(atom, tuple) and atom[:1] == ("op",) and atom[1] in ("==", "!=") and len(atom) == 4 \
+                            and ((atom[2] in vcalls and atom[3] == pver) or (atom[3] in vcalls and atom[2] == pver)):
+                        equal = ((e.extra[1] == pol) == (atom[1] == "=="))
+                        if equal:
+                            valid_at = i
+                            break
+            writes = [(e, kind) for e, node, kind, ls in writes_and_locks(F, p, ()) if node == pnode]
+            writes += [(e, "unlink") for e in ev if e.kind == "call" and e.q and e.q.endswith("::try_unlink_locked") and any(_norm(a) == pnode for a in e.args)]
+            for e, kind in writes:
+                i = idx.get(id(e))
+                if i is None or i < lock_at:
+                    continue
+                ok = valid_at is not None and valid_at < i
+                key = (id(e.node), ok)
+                if key in seen:
+                    continue
+                seen.add(key)
+                total += 1
+                ctx.check(ok, rid, F, "pNode is written (%s) only after its version was re-validated against nVersion under pNode's lock" % kind, e.node,
+                          detail="no 'pNode->version() == nVersion' outcome between locking pNode and this write on this path. A rotation that moved pNode down "
+                          "(shrinking its key range) bumps the version but leaves the node linked and the child slot free: the new node / value would be placed "
+                          "outside the range the search validated. %s" % reason, sig="version-revalidated:%s" % kind)
+    return total
